@@ -46,6 +46,14 @@ CLAIMED["C03"] = dict(
     note="Trusted: the list models (filter = list filter, rebatch = regroup, distribute = stable partition, pool = multiset union, concat = concatenation, fragments = window arithmetic). Not modelled, stated in DESIGN.md: MakeIConditionalWorker (drop-or-keep semantics of unselected records is not documented), LimitMemory (depends on runtime.MemStats), CopyTee (unused), Speed (identity when stderr is not a terminal).",
 )
 
+CLAIMED["C05"] = dict(
+    level="exploration",
+    design="DESIGN.md 4 (C05)",
+    technique="deterministic simulation of the real command mains in child processes: seeded scheduler, worker-count/batch-size/chunk-size knobs, deterministic poisoning buffer pool, tape-driven map order; byte comparison against a reference configuration",
+    text="For generated inputs and functional options of the ten record-wise commands, the real main of the command is executed twice inside the simulator (one OS process per execution): a reference configuration and a drawn configuration of --max-cpu, --batch-size, scheduling policy, pool reuse policy with poisoning of recycled buffers, dense-yield density, chunk-buffer size and map iteration order; all output files must be byte-identical (and a run that the reference rejects must be rejected too).",
+    note="Trusted: the reference configuration's output is not assumed correct (C03/C16 decide that), only equal. GOMAXPROCS is irrelevant by construction (one task runs at a time); the determinism self-test checks that claim.",
+)
+
 PENDING = {
 }
 
